@@ -733,7 +733,7 @@ package dawn
 //@ func (*dawn.Project).targetInfoPath variant shape
 //@   requires proj != nil && l != nil && len(l.Package) >= 2
 //@   callsite PathEscape: assert escapes-package-and-name: $0 == cat(cat(sub(l.Package, 2, len(l.Package)), "/"), ite(l.Name == "", "BUILD.dawn", l.Name))
-//@   callsite Join: assert under-the-kind-directory: len($0) == 3 && $0[0] == proj.work && $0[1] == cat(ite(l.Kind == "", "target", l.Kind), "s") && $0[2] == targetPath
+//@   callsite Join: assert under-the-kind-directory: len($0) == 3 && $0[0] == proj.work && $0[1] == cat(ite(l.Kind == "", "target", l.Kind), "s") && $0[2] == pescape(cat(cat(sub(l.Package, 2, len(l.Package)), "/"), ite(l.Name == "", "BUILD.dawn", l.Name)))
 //@ func (*dawn.sourceFile).load
 //@   requires f != nil && f.proj != nil && f.label != nil
 //@   retassert records-what-it-loaded: result == nil ==> (f.oldSum == info.Data && f.targetInfo.Data == info.Data && f.targetInfo.Rerun == info.Rerun)
